@@ -16,6 +16,13 @@ func (in *Interp) unop(fr *frame, instr *ssa.UnOp, x Value) Value {
 	case token.ARROW:
 		return in.chanRecv(fr, x, instr.X.Type().Underlying().(*types.Chan).Elem(), instr.CommaOk)
 	case token.MUL: // load
+		if sp, isSym := x.(*SymPtr); isSym {
+			res := sp.arr[len(sp.arr)-1].(*T)
+			for i := len(sp.arr) - 2; i >= 0; i-- {
+				res = tb.Ite(tb.Eq(sp.idx, tb.BV(64, uint64(i))), sp.arr[i].(*T), res)
+			}
+			return res
+		}
 		p, ok := x.(*Value)
 		if !ok {
 			if po, ok := x.(Poison); ok {
@@ -87,7 +94,7 @@ func (in *Interp) binop(fr *frame, op token.Token, t types.Type, x, y Value) Val
 			return tb.Mul(xv, yv)
 		case token.QUO, token.REM:
 			nz := tb.Not(tb.Eq(yv, tb.BV(yv.w, 0)))
-			if !in.branch(nz) {
+			if !in.branchTrue(nz) {
 				fr.rtPanic("integer divide by zero")
 			}
 			if signed {
